@@ -684,7 +684,7 @@ def _patch_engine():
             return SV("int", t)
         if kind == "bool":
             return SV("bool", t)
-        if kind == "seq":
+        if ty == "seqv":
             return SV("seq", t)
         return SV("v", t, hint)
     E.read_field = read_field
